@@ -3,7 +3,7 @@
 // place on the side required by the rounding mode, with a truthful Exact/Inexact flag"): same base, infinities, NewB a
 // power of B (exact re-basing + one `repr_round`), B a power of NewB (exact re-basing, normalised).  The general path
 // (ln / exp at doubled precision, f32 estimates) is cut off (rule D20) and proved unreachable under the precondition.
-// KNOWN DEFECTS excluded by precondition (see the contract): "same base" and "B power of NewB" ignore the target precision.
+// Since proposed_fixes IO1 every shortcut ends in repr_round: no "value fits the target precision" exclusion is left.
 // Also the public wrapper `FBig::with_base_and_precision` (context of the requested precision, result tagged with it).
 // Trusted: lib/fio_convbase.rs (u64::pow, isize div_rem_euclid, IBig * Word), lib/round_float_repr.rs (Repr::new).
 #![allow(unused_imports, unused_variables, dead_code, non_snake_case, unused_mut, unused_parens, unused_braces)]
